@@ -474,6 +474,8 @@ def kdf_table(binp, cases):
 
 MODEL_HEADER = """From Kestrel Require Import Bytes Outcome IO Prims.
 From Kestrel.Run Require Import RunLib%s.
+From Coq Require Import String.
+Local Open Scope string_scope.
 Local Open Scope N_scope.
 Set Printing Width 1000000.
 Set Printing Depth 1000000.
